@@ -544,7 +544,9 @@ def run(pid, tier, seed, replay=None):
         scs = [sc]
         tf, _ = vlib.run_scenarios(hv, scs, d, "replay")
         traces = vlib.split_traces(vlib.load_trace(tf))
-        res = evaluate(pid, d, scs, traces, want_conformance=False)
+        res = evaluate(pid, d, scs, traces, want_conformance=sc["driver"] != "memory")
+        for sid, within, ev in res["divergences"]:
+            log("DIVERGENCE (trace of the real code is not a behaviour of Helm.tla) at event %d: %s" % (within, json.dumps(ev)[:400] if ev else "end"))
         for name, sid, line, ev in res["violations"]:
             print("VIOLATION property=%s replay=%s check=%s line=%d" % (pid, replay, name, line))
         for kf, n in res["known"].items():
@@ -715,8 +717,10 @@ def run(pid, tier, seed, replay=None):
     for name, sid, path in out_viol[:20]:
         print("VIOLATION property=%s replay=%s check=%s scenario=%s" % (pid, path, name, describe(bysid[sid])))
     for sid, within, ev in res["divergences"][:10]:
-        log("DIVERGENCE (trace of the real code is not a behaviour of Helm.tla): scenario %s at event %d: %s"
-            % (describe(bysid[sid]), within, json.dumps({k: ev[k] for k in ("ev", "kind", "verb", "id", "ok", "inj")}) if ev else "end"))
+        dpath = os.path.join(viol_dir, "divergence_%s.json" % sid)
+        json.dump(bysid[sid], open(dpath, "w"))
+        log("DIVERGENCE (trace of the real code is not a behaviour of Helm.tla): scenario %s at event %d: %s (scenario kept in %s)"
+            % (describe(bysid[sid]), within, json.dumps({k: ev[k] for k in ("ev", "kind", "verb", "id", "ok", "inj")}) if ev else "end", dpath))
 
     distinct_end = len({json.dumps(evs[-1]["state"], sort_keys=True) for _, evs in traces})
     ops_run = sum(1 for e in events if e["ev"] == "begin")
